@@ -893,6 +893,49 @@ make_field!(
     16,
 );
 
+#[cfg(prio_verif)]
+use crate::fp::{FP12289, FP17, FP193, FP40961};
+
+#[cfg(prio_verif)]
+make_field!(
+    /// `GF(17)`, verification-only (8-bit word).
+    FieldV17,
+    u8,
+    u32,
+    FP17,
+    1,
+);
+
+#[cfg(prio_verif)]
+make_field!(
+    /// `GF(193)`, verification-only (8-bit word).
+    FieldV193,
+    u8,
+    u32,
+    FP193,
+    1,
+);
+
+#[cfg(prio_verif)]
+make_field!(
+    /// `GF(12289)`, verification-only (16-bit word, single-word multiplication).
+    FieldV12289,
+    u16,
+    u32,
+    FP12289,
+    2,
+);
+
+#[cfg(prio_verif)]
+make_field!(
+    /// `GF(40961)`, verification-only (16-bit word, split-word multiplication).
+    FieldV40961,
+    u16,
+    u32,
+    FP40961,
+    2,
+);
+
 /// Merge two vectors of fields by summing other_vector into accumulator.
 ///
 /// # Errors
